@@ -1,10 +1,13 @@
 """Per-property wiring: which contract modules (T1) and which bounded driver."""
 
 T1_MODULES = {
-    "C03": ["vt.contracts.utils_maxcounter"],
-    "C04": ["vt.contracts.utils_maxcounter"],
+    "C01": ["vt.contracts.legs_rules"],
+    "C02": ["vt.contracts.legs_rules"],
+    "C03": ["vt.contracts.utils_maxcounter", "vt.contracts.legs_rules"],
+    "C04": ["vt.contracts.utils_maxcounter", "vt.contracts.legs_rules"],
     "C06": ["vt.contracts.core_slicing"],
     "C07": ["vt.contracts.utils_maxcounter"],
+    "C18": ["vt.contracts.legs_rules"],
 }
 
 LEVEL = {"C05": "exploration", "C12": "exploration"}
